@@ -452,3 +452,112 @@ Proof.
   induction (children s) as [|c cs IH]; intros [|v vs] El; cbn [length] in El; try lia; [constructor|].
   cbn [combine map fst snd]. constructor; [apply slice_comp_ok|apply IH; lia].
 Qed.
+
+(* ---------- WrappedWireVector forwarding ----------
+   A wire_struct / wire_matrix instance forwards every operation to its concatenated wire:
+   a helper that starts with as_wires(instance) sees croot t.  That wire IS the msb-first
+   concatenation of the component wires (both construction modes), so any helper H applied to
+   "the components concatenated" equals H applied to the plain wire. *)
+Definition as_wires_inst (t : ctree) : bits := croot t.
+Definition inst_view (t : ctree) : bits := concat_msb (map croot (ckids t)).
+
+Lemma well_sliced_view s t : well_sliced s t -> children s <> [] -> inst_view t = croot t.
+Proof. intros H Hne. inversion H as [s' v kids Hl Hk Hc]; subst. unfold inst_view. cbn [ckids croot]. apply Hc. exact Hne. Qed.
+
+Theorem wrapped_forwarding : forall (A : Type) (H : bits -> A) s t,
+  well_sliced s t -> children s <> [] -> H (inst_view t) = H (as_wires_inst t).
+Proof. intros A H s t W Hne. unfold as_wires_inst. rewrite (well_sliced_view s t W Hne). reflexivity. Qed.
+
+(* both construction modes produce well-sliced instances *)
+Theorem instance_view_slice : forall s v, length v = sbw s -> children s <> [] ->
+  as_wires_inst (slice_comp s v) = v /\ inst_view (slice_comp s v) = v.
+Proof.
+  intros s v Hl Hne. destruct (struct_slice_spec s v Hl) as (R & W & _). unfold as_wires_inst.
+  split; [exact R|]. rewrite (well_sliced_view s _ W Hne). exact R.
+Qed.
+
+Theorem instance_view_concat : forall s vals t, concat_comp s vals = Some t -> children s <> [] ->
+  as_wires_inst t = concat_msb (norm_vals (children s) vals) /\ inst_view t = as_wires_inst t.
+Proof.
+  intros s vals t H Hne. destruct (struct_concat_norm s vals t H Hne) as (_ & R & _ & W).
+  split; [exact R|]. apply (well_sliced_view s t W Hne).
+Qed.
+
+(* the component reached by a path of component indices, and its lsb offset in the instance:
+   every step adds the widths of the LATER siblings (first component most significant) *)
+Fixpoint path_range (s : schema) (p : list nat) : option (schema * nat) :=
+  match p with
+  | [] => Some (s, 0)
+  | i :: r =>
+    match nth_error (children s) i with
+    | Some c => match path_range c r with
+                | Some (node, lo) => Some (node, sumbw (skipn (S i) (children s)) + lo)
+                | None => None
+                end
+    | None => None
+    end
+  end.
+
+Lemma sumbw_cons c l : sumbw (c :: l) = sbw c + sumbw l.
+Proof. reflexivity. Qed.
+
+Lemma sumbw_split l i c : nth_error l i = Some c ->
+  sumbw l = sumbw (firstn i l) + sbw c + sumbw (skipn (S i) l).
+Proof.
+  revert i. induction l as [|x l IH]; intros [|i] H; cbn [nth_error] in H; try discriminate.
+  - injection H as ->. change (skipn 1 (c :: l)) with l. change (firstn 0 (c :: l)) with (@nil schema).
+    rewrite sumbw_cons. change (sumbw []) with 0. lia.
+  - specialize (IH i H). change (skipn (S (S i)) (x :: l)) with (skipn (S i) l).
+    change (firstn (S i) (x :: l)) with (x :: firstn i l). rewrite !sumbw_cons. lia.
+Qed.
+
+Lemma firstn_skipn_nested {A} (v : list A) a b c d : b + a <= c ->
+  firstn a (skipn b (firstn c (skipn d v))) = firstn a (skipn (d + b) v).
+Proof.
+  intros H. rewrite skipn_firstn_comm. rewrite firstn_firstn. rewrite skipn_skipn'.
+  f_equal. lia.
+Qed.
+
+Lemma Forall2_len {A B} (R : A -> B -> Prop) l1 l2 : Forall2 R l1 l2 -> length l1 = length l2.
+Proof. induction 1; cbn [length]; congruence. Qed.
+
+(* a component at ANY depth of a sliced instance is exactly its bit range of the instance's
+   wire, and is itself a sliced instance of its own schema *)
+Theorem component_at_path : forall p s v node lo,
+  length v = sbw s -> path_range s p = Some (node, lo) ->
+  exists t, cpath (slice_comp s v) p = Some t /\
+            croot t = firstn (sbw node) (skipn lo v) /\
+            t = slice_comp node (croot t) /\
+            lo + sbw node <= sbw s.
+Proof.
+  induction p as [|i r IH]; intros s v node lo Hl Hp.
+  - cbn [path_range] in Hp. injection Hp as <- <-. exists (slice_comp s v). cbn [cpath skipn].
+    destruct (slice_comp_ok s v) as [_ R]. rewrite resize_id in R by exact Hl.
+    split; [reflexivity|]. split; [rewrite R; symmetry; apply firstn_all2; lia|].
+    split; [rewrite R; reflexivity|lia].
+  - cbn [path_range] in Hp. destruct (nth_error (children s) i) as [c|] eqn:Ec; [|discriminate].
+    destruct (path_range c r) as [[node' lo']|] eqn:Er; [|discriminate]. injection Hp as <- <-.
+    destruct (struct_slice_spec s v Hl) as (_ & _ & Hrange & Hkids).
+    assert (Hi : i < length (children s)) by (apply nth_error_Some; congruence).
+    assert (Hne : children s <> []) by (destruct (children s); [cbn in Hi; lia|discriminate]).
+    pose proof (sbw_children s Hne) as Hs. pose proof (sumbw_split _ _ _ Ec) as Hsplit.
+    set (kids := ckids (slice_comp s v)) in *.
+    assert (Hlk : length kids = length (children s)) by (symmetry; apply (Forall2_len _ _ _ Hkids)).
+    destruct (nth_error kids i) as [k|] eqn:Ek; [|apply nth_error_None in Ek; lia].
+    assert (Hk : k = slice_comp c (croot k)).
+    { clear - Hkids Ec Ek. revert i Ec Ek. induction Hkids as [|c0 k0 cs ks H0 Hr IHf]; intros [|i] Ec Ek;
+        cbn [nth_error] in *; try discriminate.
+      - injection Ec as ->. injection Ek as ->. exact H0.
+      - apply (IHf i Ec Ek). }
+    assert (Hroot : croot k = firstn (sbw c) (skipn (sumbw (skipn (S i) (children s))) v)).
+    { specialize (Hrange i Hi). rewrite (nth_error_nth _ _ _ Ek) in Hrange.
+      rewrite (nth_error_nth _ _ _ Ec) in Hrange. exact Hrange. }
+    assert (Hlc : length (croot k) = sbw c).
+    { rewrite Hroot, firstn_length, skipn_length. lia. }
+    destruct (IH c (croot k) node' lo' Hlc Er) as (t & Hpath & Ht & Hself & Hbound).
+    exists t. cbn [cpath]. fold kids. rewrite Ek. rewrite Hk.
+    change (match children s with [] => [] | _ :: l => skipn i l end) with (skipn (S i) (children s)).
+    split; [exact Hpath|].
+    split; [|split; [exact Hself|lia]].
+    rewrite Ht, Hroot. apply firstn_skipn_nested. lia.
+Qed.
